@@ -8,9 +8,14 @@
    * for EVERY compositional SQL engine (any meaning of one SELECT given the meanings of its sub-queries; a name denotes what
      it is bound to): the WITH form denotes what the nested form denotes (use_with), and so does the WITH form built with the
      common-table-expression cache (use_cte_elim) WHENEVER equal cache keys name equal sub-queries (`cache_sound`);
-   * `cache_sound` is FALSE for the keys the code builds: ..._refuted exhibit two reachable NearSQL states on which CTE
-     elimination changes the result (listed findings C04-cte-reuse-of-merged-extend, C04-cte-key-none); hence the
-     use_cte_elim part is `_partial` (guard `cache_sound`);
+   * `cache_sound` was FALSE for the keys the code built when this check was written (flags code_as_found): ..._refuted exhibit
+     two reachable NearSQL states on which CTE elimination changes the result.  Both were repaired in /repo (0184359: an
+     ops_key of None is never cached; efc7e6f: a merged extend is keyed as the outer extend), flags code_repaired; the
+     refutations stay as regression statements about the old behaviour, and the check reads the flags off the code at run time.
+     For the repaired keys the invariant is still a guard in general (`_partial`): it is a statement about the whole generator
+     (to_near_sql is not modelled) and, for shared sub-pipelines that contain a join, about the engine (fresh operand aliases
+     occur in the join's text).  C04_cte_elim_preserves_decidable_guard replaces it by a DECIDABLE condition on the NearSQL
+     graph -- equal keys name sub-queries that are equal up to step names -- which the check evaluates on every real graph;
    * annotate / initial_commas / sql_indent leave the token stream of the text unchanged, and every comment the generator
      writes ends at the newline written after it (C14's theorem about the regenerated _clean_annotation);
    * the SQL-level extend merge: whenever the code's test passes, the merged SELECT denotes column for column what the two
@@ -22,7 +27,8 @@
 From Coq Require Import List Bool Arith String Ascii ZArith.
 Import ListNotations.
 From DA Require Import Base.PyRT Base.PyStr Model.Lex Model.NearSql Model.WithForm Model.SqlMerge Model.Render
-  Proofs.WithFormP1 Proofs.WithFormP2 Proofs.WithFormP3 Proofs.WithFormP4 Proofs.SqlMergeP Proofs.RenderP1.
+  Model.CacheSound
+  Proofs.WithFormP1 Proofs.WithFormP2 Proofs.WithFormP3 Proofs.WithFormP4 Proofs.WithFormP5 Proofs.SqlMergeP Proofs.RenderP1.
 Local Open Scope string_scope.
 Local Open Scope list_scope.
 
@@ -48,6 +54,15 @@ Theorem C04_cte_elim_preserves_partial :
   nsem_with E r (fst (to_with_form fl (Some []) q)) = nsem E r q None.
 Proof. exact cte_elim_preserves. Qed.
 Print Assumptions C04_cte_elim_preserves_partial.
+
+(* the same with a decidable guard, for every engine: equal cache keys name sub-queries that are equal up to the names of
+   their steps, narrow to the same columns, and do not contain their own key (Model/CacheSound.v) *)
+Theorem C04_cte_elim_preserves_decidable_guard :
+  forall (T : Type) (E : engine T) (fl : flags) (q : nearsql) (r : env T),
+  hygienic q = true -> cache_sound_dec fl q = true ->
+  nsem_with E r (fst (to_with_form fl (Some []) q)) = nsem E r q None.
+Proof. exact cte_elim_preserves_dec. Qed.
+Print Assumptions C04_cte_elim_preserves_decidable_guard.
 
 (* ... and WITHOUT the invariant it fails, on a state the generator reaches (merge_tree = the SQL-level extend merge replayed
    on the unmerged graph): a merged extend keeps the ops_key of the step it was merged into *)
@@ -121,6 +136,14 @@ Example C04_cache_sound_satisfiable :
   map fst (w_prev (fst (to_with_form code_as_found (Some []) g_query))) = ["""extend_1"""] /\
   map fst (w_prev (fst (to_with_form code_as_found None g_query))) = ["""extend_1"""; """extend_2"""].
 Proof. split; [exact g_cache_sound|]. destruct g_reuses as (a & b & c). repeat split; assumption. Qed.
+
+(* the decidable guard on the witnesses: it fails for both as the code was found, and holds for both as repaired and for the
+   genuinely shared query *)
+Example C04_decidable_guard_on_witnesses :
+  cache_sound_dec code_as_found (w_merged code_as_found) = false /\ cache_sound_dec code_repaired (w_merged code_repaired) = true /\
+  cache_sound_dec code_as_found r_query = false /\ cache_sound_dec code_repaired r_query = true /\
+  cache_sound_dec code_as_found g_query = true /\ cache_sound_dec code_repaired g_query = true.
+Proof. vm_compute. repeat split. Qed.
 
 (* the first refutation in values: rows of the merged pipeline, nested vs CTE elimination; with the repairs (and without
    the cache) the same pipeline translates correctly *)
